@@ -188,6 +188,20 @@ func run(rt *rapid.T, npieces int, idleRate uint32, steps []step) (fail string, 
 					return fmt.Sprintf("%s: idle-only entry for piece %d carries a waiter's channel", when, i) + describe()
 				}
 				labels["idle-only-entry"] = true
+				// the prefetcher wants a piece until it is there: once the piece is
+				// verified and the loop has been told, the entry has to go
+				if t.Pieces.Complete(i) {
+					pending := false
+					for _, e := range queued {
+						if h, ok := e.(peer.TorHave); ok && h.Have && h.Index == i {
+							pending = true
+						}
+					}
+					if !pending && len(t.Event) == 0 {
+						return fmt.Sprintf("%s: piece %d is complete, its completion has been processed, no consumer wants it, and it is still requested (the prefetcher's entry was never withdrawn)", when, i) + describe()
+					}
+					labels["idle-entry-for-complete-piece-awaiting-announcement"] = true
+				}
 			}
 		}
 		for k, w := range waiters {
